@@ -63,6 +63,11 @@ def chain_model(spec: dict):  # noqa: ANN201
             m.add_variable("x1", InitialAssignment(fn=_scaled, args=["k0", "ia_c"]))
         else:
             m.add_variable(f"x{i + 1}", float(spec["x0"][i]))
+    if spec.get("ia_param"):
+        from mxlpy import InitialAssignment
+
+        # a parameter DEFINED by an initial assignment (used by no rate law): q = k0 * 2
+        m.add_parameter("q", InitialAssignment(fn=_scaled, args=["k0", "g1"]))
     m.add_reaction("v0", _influx, args=["k0"], stoichiometry={"x1": 1})
     for i in range(n):
         st = {f"x{i + 1}": -1}
@@ -168,7 +173,7 @@ class Exec:
         normalized = bool(op.get("normalized", True))
         self.shape.add((kind, normalized, bool(op.get("variables")), bool(self.case.get("poison"))))
         if kind in ("variable_elasticities", "parameter_elasticities"):
-            m = chain_model(spec)
+            m = chain_model(dict(spec, ia_param=True) if op.get("ia_param") else spec)
             before = model_state(m)
             state = {f"x{j + 1}": float(op["state"][j]) for j in range(n)} if op.get("state") else None
             xs = [float(op["state"][j]) for j in range(n)] if op.get("state") else x0_of(spec)
@@ -205,6 +210,14 @@ class Exec:
                         ts = ["kcat" if c == "k1" else c for c in ts]
                     tab = mca.parameter_elasticities(m, variables=state, normalized=normalized, to_scan=ts)
             except Exception as e:  # noqa: BLE001
+                if op.get("ia_param") and isinstance(e, KeyError):
+                    # the routine cannot look up the value of a parameter that is defined by an
+                    # initial assignment and gives up: not a wrong coefficient (counted, not
+                    # charged) - but the model it was handed must be as it was found
+                    self.counters["observed:elasticities_give_up_on_assignment_defined_parameter"] += 1
+                    self.trace.add(kind, "gave_up", "KeyError")
+                    self.untouched(m, before, kind, "mode:direct", "after_routine_gave_up")
+                    return
                 self._viol("routine_raised", ["routine_raised", kind, type(e).__name__], f"{kind} raised {type(e).__name__}: {str(e)[:100]}")
                 return
             self.trace.add(kind, digest_of(canon(tab)))
@@ -245,9 +258,16 @@ class Exec:
             to_scan = op.get("to_scan") or ["k1", "k2", "T"]
             if variables:
                 to_scan = [c for c in to_scan if c != "T"] or ["k1"]  # T no longer feeds the state once A is given
+            b0 = op.get("model_initial_B")
+            if b0 is not None and not variables:
+                pool = float(cs["T"]) + float(b0)
+                to_scan = [c for c in to_scan if c != "T"] or ["k1"]  # (the pool is no longer T alone)
+                self.counters["cycle_on_model_with_changed_initial_values"] += 1
             tables = {}
             for sched in op["schedules"]:
                 m = cycle_model(cs)
+                if b0 is not None and not variables:
+                    m.update_variable("B", float(b0))
                 before = model_state(m)
                 par = sched["mode"] == "pool"
                 mode = "mode:pool" if par else "mode:sequential"
@@ -441,6 +461,13 @@ def gen_case(rng: SimRng, tier: str) -> dict:  # noqa: ARG001
             r.shuffle(scheds)
             op["schedules"] = scheds
             ops.append(op)
+            if not op.get("variables") and r.random() < 0.5:
+                # the same analysis again after the user gave the MODEL ITSELF other initial values
+                # (same parameters, nothing passed through variables=): another conserved pool
+                op2 = copy.deepcopy(op)
+                op2["model_initial_B"] = r.choice([1.0, 3.0, 6.0])
+                op2["normalized"] = True if r.random() < 0.7 else op["normalized"]
+                ops.append(op2)
             continue
         if kind in ("mc_variable_elasticities", "mc_parameter_elasticities"):
             op["state"] = [r.choice([0.5, 1.5, 2.0, 4.0]) for _ in range(n)]
@@ -453,6 +480,10 @@ def gen_case(rng: SimRng, tier: str) -> dict:  # noqa: ARG001
                 op["to_scan"] = r.sample([f"k{j}" for j in range(n + 1)], r.randint(1, n + 1))
             if r.random() < 0.2:
                 op["interrupt_at"] = r.choice([0, 1, 2, 3, 4, 5, 7, 9])
+            elif kind == "parameter_elasticities" and r.random() < 0.3:
+                op["ia_param"] = True
+                if r.random() < 0.6:
+                    op["to_scan"] = r.sample([f"k{j}" for j in range(n + 1)], r.randint(1, n + 1)) + ["q"]
         else:
             if r.random() < 0.5:
                 op["variables"] = [r.choice([0.25, 1.5, 5.0]) for _ in range(n)]
